@@ -43,7 +43,7 @@ PROPS = {
     "C01": dict(VS),
     "C02": dict(VS),
     "C04": dict(VS),
-    "C07": dict(VS),
+    "C07": dict(VS, extra_engines=[{"engine": "wirespace", "needs": ["hz", "enum", "wirespace"]}]),
     "C10": dict(VS),
     "C15": dict(SM),
     "C16": dict(SM),
